@@ -69,8 +69,10 @@ def _work(args):
     return out
 
 
-def run(pid, tier, *, groups, judged, ncases, methods=("collect",), seed_salt=0, gen_opts=None, batch=4000):
+def run(pid, tier, *, groups, judged, ncases, methods=("collect",), seed_salt=0, gen_opts=None, batch=4000, classify=None, pre=None):
     rep = common.Report(pid, tier)
+    if pre:
+        pre(rep)
     seed = common.seed() + seed_salt
     items = [(seed, i, tuple(groups), tuple(methods), gen_opts or {}) for i in range(ncases)]
     results = common.pmap(_work, items, initializer=scratch.enter_scratch)
@@ -143,7 +145,7 @@ def run(pid, tier, *, groups, judged, ncases, methods=("collect",), seed_salt=0,
         if f not in judged:
             unjudged += 1
             continue
-        rep.violation(payload)
+        rep.violation(payload, finding=classify(info, verdict) if classify else None)
     for r in recs:
         info = infos[r["tid"]]
         if not info.get("cells_ok", True) and "returned" in judged:
